@@ -567,3 +567,13 @@ Proof. intros HI HL. apply run_bp_enc; [exact HI|apply sizes_ok_from_budget; ass
 Theorem run_b_canonical_from_input_sizes ops regs : Inv regs -> chain_budget regs ops < SIZE_LIMIT ->
   Forall canonical (run_b (map enc regs) ops).
 Proof. intros HI HL. apply run_b_canonical; [exact HI|apply sizes_ok_from_budget; assumption]. Qed.
+(* every intermediate register file, and the vocabularies of TreeWf.v (`run`) and TreeWf2.v (`run2`) *)
+Theorem run_b_enc_every_step_from_input_sizes ops1 ops2 regs : Inv regs -> chain_budget regs (ops1 ++ ops2) < SIZE_LIMIT ->
+  run_b (map enc regs) ops1 = map enc (run3 regs ops1).
+Proof. intros HI HL. eapply run_b_enc_every_step; [exact HI|apply sizes_ok_from_budget; eassumption]. Qed.
+Theorem run_b_enc1_from_input_sizes ops regs : Inv regs -> chain_budget regs (map lift1 ops) < SIZE_LIMIT ->
+  run_b (map enc regs) (map lift1 ops) = map enc (run regs ops).
+Proof. intros HI HL. apply run_b_enc1; [exact HI|apply sizes_ok_from_budget; assumption]. Qed.
+Theorem run_b_enc2_from_input_sizes ops regs : Inv regs -> chain_budget regs (map lift2 ops) < SIZE_LIMIT ->
+  run_b (map enc regs) (map lift2 ops) = map enc (run2 regs ops).
+Proof. intros HI HL. apply run_b_enc2; [exact HI|apply sizes_ok_from_budget; assumption]. Qed.
